@@ -24,6 +24,9 @@ INTRINSICS = {"abs", "sign", "max", "min", "mod", "modulo", "int", "real", "nint
               "merge", "sum", "product", "maxval", "minval", "dot_product", "matmul",
               "size", "lbound", "ubound"}
 
+# user functions of the module (lower-case keys of HELPERS that are functions)
+FUNC_NAMES = {"scaleby", "twice", "plain", "addone", "lowf", "nextid", "ispos", "clamp"}
+
 # ------------------------------------------------------------------- parser
 _TOK = re.compile(r"\s*(?:(\d+\.\d*|\.\d+)|(\d+)|(\.[a-z]+\.)|([a-z_][a-z0-9_]*)|"
                   r"(\*\*|==|/=|<=|>=|[-+*/()<>,:=]))", re.I)
@@ -152,6 +155,14 @@ class _P:
             if not self.at("op", "("):
                 return {"k": "ref", "name": name}
             self.take()
+            if name in FUNC_NAMES:
+                args = []
+                while not self.at("op", ")"):
+                    args.append(self.expr())
+                    if self.at("op", ","):
+                        self.take()
+                self.take("op", ")")
+                return {"k": "fcall", "name": name, "args": args}
             if name in INTRINSICS:
                 args, named, order = [], {}, []
                 while True:
@@ -273,6 +284,24 @@ def do(var, lo, hi, st, body):
             "st": NONE if st is None else E(st), "body": B(body)}
 
 
+def doconc(var, lo, hi, mask, body):
+    '''DO CONCURRENT (var = lo:hi, mask): the iterations are independent, so
+    its meaning is the loop over the active iterations'''
+    return {"k": "loop", "var": var, "lo": E(lo), "hi": E(hi), "st": NONE,
+            "body": [{"k": "if", "cond": E(mask), "then": B(body), "else": []}],
+            "concurrent": True}
+
+
+def named(label, loop):
+    '''give a DO / DO WHILE construct a name'''
+    return dict(loop, label=label)
+
+
+def xit(kind, label):
+    '''EXIT / CYCLE naming the innermost enclosing loop (spelled as given)'''
+    return {"k": kind, "label": label}
+
+
 def if_(cond, then, els=(), elif_=False, emptyelse=False):
     r = {"k": "if", "cond": E(cond), "then": B(then), "else": B(els)}
     if elif_:
@@ -364,9 +393,21 @@ def case_decls():
 
 
 # ---------------------------------------------------------------- helpers
-def _sub(name, args, locals_, body):
-    '''args: [(decl, intent)]'''
-    return {"name": name, "args": args, "locals": locals_, "body": B(body)}
+def _sub(name, args, locals_, body, disp=None, prefix=(), use=None):
+    '''args: [(decl, intent)]; disp: spelling of the name in the definition,
+    use: spelling at the references'''
+    return {"name": name, "args": args, "locals": locals_, "body": B(body),
+            "disp": disp or name, "prefix": list(prefix), "use": use or disp or name,
+            "result": None}
+
+
+def _fun(name, args, result, locals_, body, disp=None, prefix=(), use=None, clause=None,
+         typeprefix=False):
+    '''function: result = decl of the result variable (its name is the
+    function's unless clause gives the spelling of a RESULT clause)'''
+    h = _sub(name, args, locals_, body, disp, prefix, use)
+    h.update(result=result, clause=clause, typeprefix=typeprefix)
+    return h
 
 
 HELPERS = {h["name"]: h for h in [
@@ -386,17 +427,84 @@ HELPERS = {h["name"]: h for h in [
     _sub("h_mat", [(D("w", "r", (1, 3), (1, 2)), "inout"), (D("q", "i"), "in")],
          [D("ii", "i"), D("jj", "i")],
          [do("jj", "1", "2", None, [do("ii", "1", "q", None, ["w(ii, jj) = w(ii, jj) + gv(jj)"])])]),
+    # mixed-case names and prefixes
+    _sub("mixedsub", [(D("p", "r"), "inout")], [], ["p = p + 1.0"], disp="MixedSub", prefix=["pure"],
+         use="mixedsub"),
+    _sub("lowsub", [(D("p", "r"), "inout")], [], ["p = p * 2.0"], prefix=["pure"]),
+    # functions: with / without RESULT clause, type in the prefix, pure / elemental
+    _fun("scaleby", [(D("x", "r"), "in")], D("scaleby", "r"), [], ["scaleby = 2.0 * x + gv(1)"],
+         disp="ScaleBy", prefix=["pure"], use="scaleby"),
+    _fun("twice", [(D("q", "i"), "in")], D("twice", "i"), [], ["twice = 2 * q"], disp="Twice",
+         prefix=["elemental"], typeprefix=True),
+    _fun("plain", [(D("x", "r"), "in")], D("res", "r"), [], ["res = scaleby(x) + 1.0"], clause="res"),
+    _fun("addone", [(D("q", "i"), "in")], D("res", "i"), [], ["res = q + 1"], disp="AddOne",
+         clause="Res", use="ADDONE"),
+    _fun("lowf", [(D("x", "r"), "in")], D("lowf", "r"), [D("y", "r")], ["y = x * x", "lowf = y - x"],
+         prefix=["pure"]),
+    _fun("nextid", [], D("nextid", "i"), [], ["gk = gk + 1", "nextid = gk"], disp="NextId"),
+    _fun("ispos", [(D("x", "r"), "in")], D("ispos", "l"), [], ["ispos = x > 0.0"], disp="isPos",
+         typeprefix=True),
+    _fun("clamp", [(D("x", "r"), "in")], D("y", "r"), [],
+         ["y = x", if_("y > 2.0", ["y = 2.0", "return"]), "y = y + 0.5"], disp="Clamp", clause="y",
+         prefix=["pure"]),
 ]}
+assert FUNC_NAMES == {h["name"] for h in HELPERS.values() if h["result"]}
+
+
+# ------------------------------------------ function references -> hoisted calls
+def _lower_expr(e, pre, temps):
+    '''copy of expression e in which every reference to a user function is
+    replaced by a temporary assigned by a call hoisted (innermost first) into pre'''
+    if isinstance(e, list):
+        return [_lower_expr(x, pre, temps) for x in e]
+    if not isinstance(e, dict):
+        return e
+    if e.get("k") == "fcall":
+        args = [_lower_expr(a, pre, temps) for a in e["args"]]
+        tmp = f"{e['name']}#g{len(temps) + 1}"
+        temps.append({"name": tmp, "ty": HELPERS[e["name"]]["result"]["ty"], "dims": []})
+        pre.append({"k": "call", "name": e["name"], "args": args + [{"k": "ref", "name": tmp}]})
+        return {"k": "ref", "name": tmp}
+    return {k: _lower_expr(v, pre, temps) for k, v in e.items()}
+
+
+def lower(body, temps):
+    '''the statements with function references (assignments, IF conditions)
+    turned into calls with a result argument; temps collects the temporaries'''
+    out = []
+    for s in body:
+        k = s["k"]
+        pre = []
+        if k == "assign":
+            s = {"k": "assign", "lhs": _lower_expr(s["lhs"], pre, temps),
+                 "rhs": _lower_expr(s["rhs"], pre, temps)}
+        elif k == "if":
+            s = dict(s, cond=_lower_expr(s["cond"], pre, temps), then=lower(s["then"], temps))
+            s["else"] = lower(s["else"], temps)
+        elif k in ("loop", "while"):
+            s = dict(s, body=lower(s["body"], temps))
+        elif k == "select":
+            s = dict(s, cases=[dict(c, body=lower(c["body"], temps)) for c in s["cases"]])
+        if any(nd.get("k") == "fcall" for nd in walk(s) if k not in ("if", "loop", "while", "select")) \
+                or any(nd.get("k") == "fcall" for nd in walk([s.get("cond", {}), s.get("lo", {}),
+                                                              s.get("hi", {}), s.get("sel", {})])):
+            raise ValueError("function reference in a position the family does not lower")
+        out += pre + [s]
+    return out
 
 
 def sub_record(h):
-    '''the callee record FortranSem!ExecCall uses'''
+    '''the callee record FortranSem!ExecCall uses (a function is a subroutine
+    whose last dummy is its result variable)'''
+    temps = []
+    body = lower(h["body"], temps)
+    formals = [d for d, _ in h["args"]] + ([h["result"]] if h["result"] else [])
     return {"formals": [{"name": d["name"], "ty": d["ty"], "lo": [lo for lo, _ in d["dims"]],
-                         "rank": len(d["dims"])} for d, _ in h["args"]],
+                         "rank": len(d["dims"])} for d in formals],
             "locals": [{"name": d["name"], "ty": d["ty"],
                         "dims": [[{"k": "lit", "t": "int", "v": lo}, {"k": "lit", "t": "int", "v": hi}]
-                                 for lo, hi in d["dims"]]} for d in h["locals"]],
-            "body": h["body"]}
+                                 for lo, hi in d["dims"]]} for d in h["locals"] + temps],
+            "body": body}
 
 
 def walk(x):
@@ -413,7 +521,7 @@ def called(body, acc=None):
     '''names of the helpers reachable from body, in first-call order'''
     acc = [] if acc is None else acc
     for nd in walk(body):
-        if nd.get("k") == "call" and nd["name"] not in acc:
+        if nd.get("k") in ("call", "fcall") and nd["name"] not in acc:
             acc.append(nd["name"])
             called(HELPERS[nd["name"]]["body"], acc)
     return acc
@@ -423,7 +531,7 @@ def strip(x):
     '''the AST without renderer-only annotations (what TLC executes)'''
     if isinstance(x, dict):
         return {k: strip(v) for k, v in x.items()
-                if k not in ("single", "elif", "emptyelse", "named_order")}
+                if k not in ("single", "elif", "emptyelse", "named_order", "concurrent", "label")}
     if isinstance(x, list):
         return [strip(v) for v in x]
     return x
@@ -437,10 +545,37 @@ def source(body):
                      [(d, None) for d in LOCALS], body)]
     for nm in hs:
         h = HELPERS[nm]
-        rts.append(R.routine(nm, [d["name"] for d, _ in h["args"]],
-                             [(dict(d, explicit_lo=False), it) for d, it in h["args"]] +
-                             [(d, None) for d in h["locals"]], h["body"]))
+        decls = [(dict(d, explicit_lo=False), it) for d, it in h["args"]]
+        kind, head, suffix = "subroutine", " ".join(h["prefix"]), ""
+        if h["result"]:
+            kind = "function"
+            res = h["result"]
+            if h["clause"]:
+                suffix = f" result({h['clause']})"
+            if h["typeprefix"]:
+                head = (head + " " + R._TY[res["ty"]]).strip()
+            else:
+                decls.append((dict(res, name=h["clause"] or h["disp"]), None))
+        rts.append(R.routine(h["disp"], [d["name"] for d, _ in h["args"]],
+                             decls + [(d, None) for d in h["locals"]], h["body"],
+                             kind=kind, prefix=head, suffix=suffix))
     return R.module(MODULE, MODVARS, rts)
+
+
+def interface(body):
+    '''what the program text declares: one record per routine (names lower-cased)'''
+    out = [{"name": "s", "kind": "subroutine", "elemental": False, "pure": False,
+            "nargs": len(ARGS), "elemuse": False}]
+    elemuse = {nd["name"] for nd in walk(body) if nd.get("k") == "fcall" and
+               any(x.get("k") == "range" or (x.get("k") == "ref" and any(
+                   d["name"] == x["name"] and d["dims"] for d in ARGS + MODVARS))
+                   for x in walk(nd["args"]))}
+    for nm in called(body):
+        h = HELPERS[nm]
+        out.append({"name": nm, "kind": "function" if h["result"] else "subroutine",
+                    "elemental": "elemental" in h["prefix"], "pure": "pure" in h["prefix"],
+                    "nargs": len(h["args"]), "elemuse": nm in elemuse})
+    return out
 
 
 class Prog:
@@ -462,7 +597,10 @@ class Prog:
 
     def ref(self):
         '''{"decls","body","subs"} in the exporter's shape'''
-        return {"decls": case_decls(), "body": strip(self.body),
+        temps = []
+        body = lower(self.body, temps)
+        return {"decls": case_decls() + [dict(t, init="poison", arg=False) for t in temps],
+                "body": strip(body),
                 "subs": {nm: strip(sub_record(HELPERS[nm])) for nm in called(self.body)}}
 
     def domlist(self):
@@ -849,7 +987,69 @@ def fam_combo():
     ]
 
 
-FAMILIES = [fam_select, fam_where, fam_array, fam_intrinsic, fam_loops, fam_if, fam_expr,
+def fam_functions():
+    '''module functions (mixed-case names, with / without RESULT clause, type in
+    the prefix, pure / elemental) referenced from the routine under test'''
+    dom = {"n": [-1, 2, 3], "m": [1, 2], "t": [[3, 2], [5, 2]], "u": [[-2, 1], [1, 2]], "k": [5]}
+    bodies = {
+        "scale": ["t = scaleby(u) + 1.0"],
+        "plain": ["u = plain(t)"],
+        "twice": ["k = twice(n) + twice(m)"],
+        "nested": ["k = twice(addone(k))"],
+        "addone": ["k = addone(n) * 2"],
+        "lowf": ["t = lowf(u) - lowf(t)"],
+        "nextid": ["k = nextid()", "k = k + nextid()"],
+        "ispos": ["lg = ispos(u)"],
+        "ispos_if": [if_("ispos(t - 2.0)", ["k = 1"], ["k = 2", "t = clamp(t)"])],
+        "clamp": ["t = clamp(t)", "u = clamp(u + 3.0)"],
+        "inloop": [do("i", "1", "n", None, ["b(i) = scaleby(e(i))"])],
+        "index": ["b(addone(m)) = 0.0"],
+        "argexpr": ["t = scaleby(t * 2.0 + u)"],
+        "convert": ["k = scaleby(u)", "t = twice(n)"],
+        "elemental_array": ["ia(:) = twice(ia(:))"],
+        "elemental_section": ["ia(1:3) = twice(ia(2:4)) + 1"],
+        "subs": [call("mixedsub", "t"), call("lowsub", "u")],
+        "mix": ["k = addone(twice(m))", call("mixedsub", "t"), "u = plain(t) - scaleby(u)",
+                if1("ispos(u)", "k = k + nextid()")],
+    }
+    return [Prog(f"fn|{nm}", body, dom=dom, fills=[1, 3], tags={"function"})
+            for nm, body in bodies.items()]
+
+
+def fam_misc():
+    '''shapes reported by other checks: default-only SELECT after a statement kept
+    verbatim, DO CONCURRENT masks, construct names'''
+    dom = {"n": [0, 2, 5], "m": [1, 2]}
+    fills = [1, 3]
+    return [
+        Prog("selectdflt|where", [where1("b > 0.0", "b = 0.0"),
+                                  select("n", ("default", ["b(1) = 5.0", "k = 1"])), "k = k + 1"], dom=dom, fills=fills),
+        Prog("selectdflt|wherec", [where("b > e", ["b = e"], (None, ["e = b"])),
+                                   select("n + m", ("default", ["e(2) = b(2) + 1.0"]))], dom=dom, fills=fills),
+        Prog("selectdflt|lowered", [where1("b(:) > 0.0", "b(:) = 0.0"),
+                                    select("n", ("default", ["b(1) = 5.0"]))], dom=dom, fills=fills),
+        Prog("selectdflt|two", [where1("b > 0.0", "b = 0.0"),
+                                select("n", ("2", ["b(2) = 4.0"]), ("default", ["b(1) = 5.0"]))], dom=dom, fills=fills),
+        Prog("doconc|mask", [doconc("i", "1", "6", "b(i) > 0.0", ["b(i) = 0.0"])], dom=dom, fills=[2, 3]),
+        Prog("doconc|mk", [doconc("i", "1", "6", "mk(i)", ["e(i) = b(i) + 1.0"])], dom=dom, fills=fills),
+        Prog("doconc|bounds", [doconc("i", "n", "6", "mod(i, 2) == 0", ["b(i) = real(i)"])],
+             dom={"n": [1, 2, 5]}, fills=fills),
+        Prog("named|cycle_case", ["k = 0", named("Lp", do("i", "1", "4", None,
+                                                         [if1("i == n", xit("cycle", "lp")), "k = k + i"]))],
+             dom=dom, fills=[1]),
+        Prog("named|exit_case", ["k = 0", named("outer", do("i", "1", "6", None,
+                                                           [if1("i > n", xit("exit", "OUTER")), "k = k + i"]))],
+             dom=dom, fills=[1]),
+        Prog("named|while_case", ["k = 0", named("W1", while_("k < 4", ["k = k + 1", if1("k == n", xit("exit", "w1"))]))],
+             dom=dom, fills=[1]),
+        Prog("named|same", ["k = 0", named("lp", do("i", "1", "4", None,
+                                                   [if1("i == n", xit("cycle", "lp")), "k = k + i"]))],
+             dom=dom, fills=[1]),
+        Prog("named|unused", ["k = 0", named("Lp", do("i", "1", "n", None, ["k = k + i"]))], dom=dom, fills=[1]),
+    ]
+
+
+FAMILIES = [fam_functions, fam_misc, fam_select, fam_where, fam_array, fam_intrinsic, fam_loops, fam_if, fam_expr,
             fam_calls, fam_combo]
 
 
